@@ -7,7 +7,7 @@ CLAIMED = {
  "C12": ("Bounded symbolic model checking of inputrc.ParseBytes on directive skeletons with symbolic holes (runes/bytes), symbolic parser options and include graphs: every Go run-time panic, unbounded recursion and non-termination is an assertion decided by z3 for all hole values within the bound; counterexamples are replayed natively.",
          "Trusted: the gosx interpreter and its models of bufio/bytes/strings/unicode (validated by native replay and selftest); holes range over Latin-1 plus all caseless scalar values in quick tier.",
          "symbolic execution of the real SSA + SMT (z3) decision of panic/termination assertions", "DESIGN.md §5 C12"),
- "C13": ("Bounded symbolic model checking of the parser against a reference evaluator: programs of up to d directives with symbolic directive kinds and symbolic condition operands; equality of the resulting Config with the reference is asserted and decided by z3 on every path.",
+ "C13": ("Bounded symbolic model checking of the parser against a reference evaluator: programs of up to d directives with symbolic directive kinds and symbolic condition operands; equality of the resulting Config with the reference is asserted and decided by z3 on every path; the accept commands are also typed in a real Readline call, alone and after an earlier call left through each accept command.",
          "Trusted: gosx and the 30-line reference evaluator in the harness; only well-formed programs are compared.",
          "symbolic execution of the real SSA + SMT (z3) equivalence check against a reference evaluator", "DESIGN.md §5 C13"),
  "C19": ("Bounded symbolic model checking of Unescape(Escape(s)) == s and Unescape(EscapeMacro(s)) == s for all sequences of up to n runes in the property's domain (0x00-0xFF plus printable Unicode), and of dump-functions / dump-macros / dump-variables in inputrc format followed by ParseBytes reproducing a symbolic binding, macro or variable value; unicode.IsPrint/ToUpper are exact range formulas generated from the toolchain's tables.",
@@ -16,13 +16,13 @@ CLAIMED = {
 }
 
 CLAIMED["C08"] = ("Bounded symbolic model checking of history recording: Sources.Accept/Write run on symbolic accepted lines, symbolic prior entries, 1-2 bound sources (every map iteration order) and a symbolic history-size; the post-state of every source is compared with the recording rule of the property, decided by z3 on every path.",
- "Trusted: gosx; the accept variants are driven at the Sources.Accept level (what accept-line / accept-and-hold / operate-and-get-next / interrupt call), not through the key loop.",
+ "Trusted: gosx; two levels: Sources.Accept (what accept-line / accept-and-hold / operate-and-get-next / interrupt call) and the commands typed in a real Readline call.",
  "symbolic execution of the real SSA + SMT (z3) comparison with a reference recording rule", "DESIGN.md §5 C08")
-CLAIMED["C09"] = ("Bounded symbolic model checking of history navigation and search through the real Readline loop: symbolic history entries and in-progress text, symbolic sequences of navigation/search commands typed through key bindings; after every command the buffer is compared with a position model / matching rule and the entries with their initial values.",
+CLAIMED["C09"] = ("Bounded symbolic model checking of history navigation and search through the real Readline loop: symbolic history entries and in-progress text, symbolic sequences of navigation/search commands typed through key bindings; after every command the buffer is compared with a position model / matching rule and the entries with their initial values; the history source is bound before Readline is called and the walks are repeated in a second Readline call.",
  "Trusted: gosx, the paint stubs (display output is not observed), the terminal stub answering cursor queries; incremental search (Ctrl-R/Ctrl-S sessions) is not driven.",
  "symbolic execution of the real SSA (Readline loop) + SMT (z3) assertions against a navigation model", "DESIGN.md §5 C09")
 
-CLAIMED["C16"] = ("Bounded symbolic model checking of kill/yank through the real Readline loop: from a symbolic buffer, cursor and mark each kill command (by name, typed through its binding, with and without a numeric argument) runs, then yank / vi-put-before; contiguity of the removed range, equality with the kill-ring top and restoration of the buffer are asserted on every path and decided by z3.",
+CLAIMED["C16"] = ("Bounded symbolic model checking of kill/yank through the real Readline loop: from a symbolic buffer, cursor and mark each kill command (by name, typed through its binding, with and without a numeric argument) runs, then yank / vi-put-before; contiguity of the removed range, equality with the kill-ring top and restoration of the buffer are asserted on every path and decided by z3; further jobs run two kills and then yank (the most recent kill is what yank inserts) and a kill in one Readline call followed by yank in the next.",
  "Trusted: gosx, paint stubs, terminal stub; buffers exclude NUL (Line.Insert strips it by design).",
  "symbolic execution of the real SSA (Readline loop) + SMT (z3) assertions", "DESIGN.md §5 C16")
 CLAIMED["C17"] = ("Bounded symbolic differential model checking of the vi operators: two shells start from the same symbolic buffer/cursor, one runs d<count><motion>, the other y<count><motion>, for every motion/text object of the property; buffer-unchanged-by-yank, one-contiguous-range-removed and equality of both registers with that range are asserted on every path.",
@@ -32,7 +32,7 @@ CLAIMED["C17"] = ("Bounded symbolic differential model checking of the vi operat
 CLAIMED["C01"] = ("Bounded symbolic model checking of crash/hang freedom of the real Readline loop: (a) every registered command by name, typed through a key binding in emacs / vi-insert / vi-command from a symbolic buffer, cursor and mark, key-reading commands being fed a symbolic byte; (b) fully symbolic key bytes after context-opening prefixes (ESC, C-x, quoted-insert, vi operators, registers, f/r, visual), in one read or split; (c) stdin reporting EOF or an error at the end of the script; (d) a cursor-position report typed as input. Every Go panic, channel deadlock, busy loop on dead input and loop-budget overrun is an engine outcome decided per path with z3 and replayed natively on a pty.",
  "Trusted: gosx, paint stubs (display painting not observed), terminal stub; external-editor commands are out of scope; SIGWINCH goroutine never scheduled.",
  "symbolic execution of the real SSA (Readline loop) + SMT (z3) feasibility of panic/deadlock/spin paths", "DESIGN.md §5 C01")
-CLAIMED["C02"] = ("Bounded symbolic model checking of typed-text fidelity: n symbolic printable runes (exact unicode.IsPrint formula) per class are delivered as UTF-8 plus Enter to the real Readline loop in emacs and vi-insert; the returned line must equal the typed text; ASCII under symbolic meta variables.",
+CLAIMED["C02"] = ("Bounded symbolic model checking of typed-text fidelity: n symbolic printable runes (exact unicode.IsPrint formula) per class are delivered as UTF-8 plus Enter to the real Readline loop in emacs and vi-insert; the returned line must equal the typed text; ASCII under symbolic meta variables; also after an earlier Readline call on the same shell.",
  "Trusted: gosx, paint stubs, terminal stub.",
  "symbolic execution of the real SSA (Readline loop) + SMT (z3) equality assertion", "DESIGN.md §5 C02")
 CLAIMED["C06"] = ("Bounded symbolic model checking of cursor/selection invariants and movement purity: one inductive step from a symbolic buffer/cursor/mark per movement or copy command (by name, with numeric arguments, key-reading ones with a symbolic argument byte) in the real Readline loop; at every later input wait cursor and selection bounds, the vi-command on-a-character rule and buffer equality are asserted.",
@@ -43,11 +43,11 @@ CLAIMED["C05"] = ("Bounded symbolic differential model checking of chunking inde
  "Trusted: gosx, paint stubs, terminal stub; timing finer than read boundaries is not modelled (keyseq-timeout is not implemented by the library).",
  "symbolic execution of the real SSA (two Readline runs per path) + SMT (z3) equivalence assertions", "DESIGN.md §5 C05")
 
-CLAIMED["C18"] = ("Bounded symbolic model checking of macro record/replay at the macro engine: k symbolic ASCII key bytes are recorded through the same calls the main loop makes per resolved key, stored in inputrc notation and replayed in the emacs style (RunLastMacro) and the vi style (RunMacro of a named register); the keys popped from the key stack must equal the keys typed; at session level the outcome of recording and calling a symbolic key script must equal the outcome of typing it twice; decided by z3 for all key values.",
+CLAIMED["C18"] = ("Bounded symbolic model checking of macro record/replay at the macro engine: k symbolic ASCII key bytes are recorded through the same calls the main loop makes per resolved key, stored in inputrc notation and replayed in the emacs style (RunLastMacro) and the vi style (RunMacro of a named register); the keys popped from the key stack must equal the keys typed; at session level the outcome of recording and calling a symbolic key script must equal the outcome of typing it twice (also with the line accepted between the recording and the call, which then happens in a second Readline call); decided by z3 for all key values.",
  "Trusted: gosx, paint stubs, terminal stub. Two levels: the macro engine alone (key stack observed with core.PopKey), and two whole Readline sessions per path (C-x ( K C-x ) C-x e, or q a K q @ a, against K typed twice) for symbolic scripts K of complete commands.",
  "symbolic execution of the real SSA (macro engine; two Readline sessions per path) + SMT (z3) equality of replayed and typed keys / outcomes", "DESIGN.md §5 C18")
 
-CLAIMED["C07"] = ("Bounded symbolic model checking of undo/redo through the real Readline loop: symbolic sequences of editing commands (inserts, backspace, kills, yank, movements, undo) typed one key per read, with a ghost list of the buffers shown; undo results must be earlier states, repeated undo must reach the initial content, n undos + n redos must restore the text, an edit after undo must discard the redo branch.",
+CLAIMED["C07"] = ("Bounded symbolic model checking of undo/redo through the real Readline loop: symbolic sequences of editing commands (inserts, backspace, kills, yank, movements, undo) typed one key per read, with a ghost list of the buffers shown; undo results must be earlier states, repeated undo must reach the initial content, n undos + n redos must restore the text, an edit after undo must discard the redo branch; the undo walk is also checked in a second Readline call after an earlier call on the same shell ended in five different ways.",
  "Trusted: gosx, paint stubs, terminal stub; emacs mode only, history walks are not part of the command alphabet.",
  "symbolic execution of the real SSA (Readline loop) + SMT (z3) decision over symbolic command sequences, assertions against a ghost model", "DESIGN.md §5 C07")
 
